@@ -157,31 +157,127 @@ def gen_array_case(rng, big=False):
     return {"kind": "fuzzy", "rel": rel, "abs": abs_, "a": A, "b": B}, tags
 
 
-def gen_f32_case(rng):
-    """float32 arrays with Python-float tolerances (numpy: 'weak' scalars, arithmetic stays in float32)"""
+# ---------------------------------------------------------------- float32 / float16 operands
+SMALL = {"f32": (24, -149, 128, 2.0 ** -23), "f16": (11, -24, 16, 2.0 ** -10)}   # precision, log2(min subnormal), emax, eps
+
+
+def rn_fmt(x: Fraction, dt: str):
+    """x rounded to float32 / float16 (round-to-nearest-even, gradual underflow), computed with integers only;
+    math.inf = overflow.  Independent of numpy and of the Lean model."""
+    if x == 0:
+        return Fraction(0)
+    sgn = -1 if x < 0 else 1
+    x = abs(x)
+    prec, qmin, emax, _ = SMALL[dt]
+    e = x.numerator.bit_length() - x.denominator.bit_length()
+    if Fraction(2) ** e > x:
+        e -= 1
+    q = max(e - (prec - 1), qmin)
+    y = x / Fraction(2) ** q
+    n = y.numerator // y.denominator
+    r = y - n
+    if r > Fraction(1, 2) or (r == Fraction(1, 2) and n % 2 == 1):
+        n += 1
+    res = n * Fraction(2) ** q
+    if res >= Fraction(2) ** emax:
+        return sgn * math.inf
+    return sgn * res
+
+
+def weak_formula(dt, a: float, b: float, r, t) -> bool:
+    """documented formula evaluated in float32/float16 with tolerances r, t already rounded to that format"""
+    d = rn_fmt(abs(Fraction(b) - Fraction(a)), dt)
+    p = rn_fmt(max(abs(Fraction(a)), abs(Fraction(b))) * r, dt)
+    return d <= max(p, t)
+
+
+def oracle_weak(c):
+    """'T'/'F' demanded for two float32/float16 arrays and Python-float tolerances; None if a tolerance is not weak
+    or its rounding overflows (outside the hypothesis of C01_weak_model_eq_spec)"""
+    a, b = c["a"], c["b"]
+    dt = a["dt"]
+    tol = []
+    for t, dflt in ((c["rel"], SMALL[dt][3]), (c["abs"], 0.0)):
+        if t[0] not in ("num", "dflt"):
+            return None
+        x = rn_fmt(Fraction(dflt if t[0] == "dflt" else t[1]), dt)
+        if x == math.inf:
+            return None
+        tol.append(x)
+    if not predio.shapes_compatible(a["shape"], b["shape"]):
+        return "F"
+    return "T" if all(weak_formula(dt, float(x), float(y), tol[0], tol[1]) for x, y in zip(a["v"], b["v"])) else "F"
+
+
+def gen_small_float_case(rng):
+    """float32 / float16 arrays of shapes (n,), (n,k), (n,1) with Python-float ('weak': numpy keeps the arithmetic in
+    the arrays' format) tolerances, and — less often — float64-array / scaled ('strong') tolerances"""
     import numpy as np
-    n = rng.choice([1, 2, 5])
-    e = rng.choice([-140, -126, -60, -10, 0, 1, 20, 90, 120])
-    def r32():
-        m = 1.0 + rng.getrandbits(23) / 2.0 ** 23
-        x = math.ldexp(m, max(-149, min(126, e + rng.randint(-2, 2))))
-        return float(np.float32(-x if rng.random() < 0.5 else x))
-    a = [r32() for _ in range(n)]
+    dt = rng.choice(["f32", "f32", "f16"])
+    T = predio.NP_DT[dt]
+    prec, qmin, emax, eps = SMALL[dt]
+    n = rng.choice([0, 1, 2, 3, 5, 17])
+    k = rng.choice([1, 2, 3])
+    form = rng.choice(["n", "n", "nk", "nk", "n1"])
+    shape = {"n": [n], "nk": [n, k], "n1": [n, 1]}[form]
+    size = _prod(shape)
+    e = rng.choice([qmin, qmin + 4, qmin + 23, -60, -10, 0, 1, 20, 90, emax - 8, emax - 2])
+    e = max(qmin, min(emax - 2, e))
+
+    def rv():
+        m = 1.0 + rng.getrandbits(prec - 1) / 2.0 ** (prec - 1)
+        x = math.ldexp(m, max(qmin, min(emax - 1, e + rng.randint(-2, 2))))
+        with np.errstate(all="ignore"):
+            v = float(T(-x if rng.random() < 0.5 else x))
+        return v if math.isfinite(v) else 0.0
+    a = [rv() for _ in range(size)]
     b = list(a)
-    rel = rng.choice([0.0, 2.0 ** -23, 1e-6, 1e-3, 0.1, 2.0 ** -10])
-    abs_ = rng.choice([0.0, 1e-45, 1e-38, 1e-30, 1e-6, 1.0])
-    i = rng.randrange(n)
-    t = max(float(np.float32(np.float32(abs(a[i])) * np.float32(rel))), float(np.float32(abs_)))
-    with np.errstate(all="ignore"):
-        bb = np.float32(np.float32(a[i]) + np.float32(t if rng.random() < 0.5 else -t))
-        k = rng.choice([0, 0, 1, 2])
-        for _ in range(k):
-            bb = np.nextafter(bb, np.float32(np.inf) if rng.random() < 0.5 else np.float32(-np.inf))
-    if np.isfinite(bb):
-        b[i] = float(bb)
-    relt = ["num", rel] if rng.random() < 0.85 else ["dflt"]
-    return {"kind": "fuzzy", "rel": relt, "abs": ["num", abs_],
-            "a": {"dt": "f32", "shape": [n], "v": a}, "b": {"dt": "f32", "shape": [n], "v": b}}, ["f32"]
+    entry = shape[1:]
+    rs = max(_prod(entry), 1)
+    RELS_S = [0.0, eps, eps / 2, 1e-6, 1e-3, 0.1, 2.0 ** -10, 0.3, 1e-9]
+    ABSS_S = [0.0, 1e-45, 6e-8, 1e-38, 1e-30, 1e-6, 1e-3, 1.0, 2.0 ** -20 - 2.0 ** -60]
+    tk = rng.random()
+    if tk < 0.6:
+        rel, abs_ = ["num", rng.choice(RELS_S)], ["num", rng.choice(ABSS_S)]
+        ttag = "tol-weak-num"
+    elif tk < 0.72:
+        rel, abs_ = ["dflt"], ["num", rng.choice([0.0, 0.0, 1e-6])]
+        ttag = "tol-weak-default"
+    elif tk < 0.84 and len(shape) >= 2:
+        rel = ["arr", entry, [rng.choice(RELS_S) for _ in range(rs)]]
+        abs_ = ["arr", entry, [rng.choice(ABSS_S) for _ in range(rs)]] if rng.random() < 0.5 else ["num", rng.choice(ABSS_S)]
+        ttag = "tol-strong-percomp"
+    elif tk < 0.94:
+        rel, abs_ = ["num", rng.choice(RELS_S)], ["scaled", rng.choice([1e-12, 1e-6, 2.0 ** -20, 0.25])]
+        ttag = "tol-strong-scaled"
+    else:
+        rel, abs_ = ["num", rng.choice(RELS_S)], ["scomp", rng.choice([1e-6, 2.0 ** -20, 0.25])]
+        ttag = "tol-strong-scaledcomp"
+    tags = [dt, dt + "-shape-" + form, ttag]
+    if size > 0 and rng.random() < 0.9:
+        i = rng.choice([0, size - 1, rng.randrange(size)])
+        fa = {"dt": dt, "shape": shape, "v": a}
+        r = predio.oracle_tol_at(rel, fa, fa, shape, i, eps)
+        t = predio.oracle_tol_at(abs_, fa, fa, shape, i, 0.0)
+        with np.errstate(all="ignore"):
+            if r is not None and t is not None:
+                thr = max(float(T(T(abs(a[i])) * T(r))), float(T(t)))
+                bb = T(T(a[i]) + T(thr if rng.random() < 0.5 else -thr))
+                for _ in range(rng.choice([0, 0, 1, 2])):
+                    bb = np.nextafter(bb, T(np.inf) if rng.random() < 0.5 else T(-np.inf))
+                if np.isfinite(bb):
+                    b[i] = float(bb)
+    sb = list(shape)
+    sm = rng.random()
+    if sm < 0.1 and form == "n":
+        sb = [n, 1]; tags.append("mix-n-n1")
+    elif sm < 0.15 and form == "nk" and k > 1 and size > 1:
+        sb = [size]; tags.append("mismatch-flat")
+    A = {"dt": dt, "shape": shape, "v": a}
+    B = {"dt": dt, "shape": sb, "v": b}
+    if rng.random() < 0.5:
+        A, B = B, A
+    return {"kind": "fuzzy", "rel": rel, "abs": abs_, "a": A, "b": B}, tags
 
 
 def is_nontrivial(case) -> bool:
@@ -193,12 +289,24 @@ def evaluate(ctx, cases, tagsl):
     replies = ctx.lean(lines) if ctx.driver_ok else [None] * len(cases)
     for c, tags, rep in zip(cases, tagsl, replies):
         impl = predio.run_impl(c["kind"], c["rel"], c["abs"], c["a"], c["b"])
-        if c["a"]["dt"] == "f32":
-            # float32: correspondence with the model only (the theorems are stated for float64)
-            ctx.case((c["rel"], c["abs"], c["a"], c["b"]), nontrivial=is_nontrivial(c), tags=list(tags) + ["verdict-" + impl],
-                     sample=None)
-            if rep is not None and rep.get("mhyp") == "1" and rep["model"] != impl:
-                ctx.mismatch(c, impl, rep["model"], what="float32: impl vs model")
+        if c["a"]["dt"] in SMALL:
+            # float32 / float16.  hyp (hk=weak): theorem C01_weak_model_eq_spec — model = spec = documented formula
+            # evaluated in the arrays' format with the format-rounded tolerances (cross-checked with the integer-only
+            # Python oracle `oracle_weak`).  mhyp: the model is meant to reproduce the code (strong route included).
+            hyp = rep is not None and rep.get("hyp") == "1"
+            ctx.case((c["rel"], c["abs"], c["a"], c["b"]), nontrivial=is_nontrivial(c),
+                     tags=list(tags) + ["verdict-" + impl, "small-hyp" if hyp else "small-nohyp"], sample=None)
+            if rep is not None and "model" not in rep:
+                ctx.inconsistent(c, str(rep), "bad-op")
+                continue
+            if rep is not None and (hyp or rep.get("mhyp") == "1") and rep["model"] != impl:
+                ctx.mismatch(c, impl, rep["model"], what=c["a"]["dt"] + ": impl vs model")
+            if hyp:
+                orc = oracle_weak(c)
+                if rep["spec"] != rep["model"]:
+                    ctx.inconsistent(c, rep["model"], rep["spec"])
+                if orc is None or rep["spec"] != orc:
+                    ctx.inconsistent(c, "lean-spec=" + rep["spec"], "python-oracle=" + str(orc))
             continue
         orc = predio.oracle_fuzzy_f64(c["rel"], c["abs"], c["a"], c["b"])
         exact = predio.oracle_fuzzy_f64(c["rel"], c["abs"], c["a"], c["b"], formula=predio.exact_formula)
@@ -273,7 +381,8 @@ def run(ctx):
     ctx.rule = ("cases = (tolerances, a, b) for FuzzyEquality on float64 arrays; scalar pairs with b placed on the "
                 "threshold +-0..2 ulp over magnitudes subnormal..1e300, arrays of shapes (n,),(n,k),(n,k,k),(n,1) with one "
                 "deviating entry at first/interior/last/last-component position, scalar / per-component / scaled / default "
-                "tolerances, (n,)~(n,1) mixes and genuine shape mismatches; non-trivial = operands differ in a value or in "
+                "tolerances, (n,)~(n,1) mixes and genuine shape mismatches; plus float32/float16 arrays of shapes (n,),(n,k),(n,1) "
+                "with Python-float (weak) and array/scaled (strong) tolerances; non-trivial = operands differ in a value or in "
                 "shape; distinct = distinct (tolerances, a, b)")
     ctx.assumptions += ["numpy float64 arithmetic is IEEE round-to-nearest-even (model: Fc.rndMag, compared on every case)",
                         "CPython int/int true division is correctly rounded (python-side oracle)"]
@@ -287,8 +396,8 @@ def run(ctx):
     for i in range(n_array):
         c, t = gen_array_case(rng, big=(i % 50 == 0))
         cases.append(c); tagsl.append(["array"] + t)
-    for _ in range(ctx.scale(1200, 60000)):
-        c, t = gen_f32_case(rng)
+    for _ in range(ctx.scale(1500, 60000)):
+        c, t = gen_small_float_case(rng)
         cases.append(c); tagsl.append(t)
     CH = 5000
     for i in range(0, len(cases), CH):
